@@ -321,7 +321,7 @@ def R2_step(run):
             if si:
                 # which one: the remainder only when the step stops short of its target
                 mx = [at for at in A.atoms(fn, ctx) if at.cond() and at.cond()[0] in ("Eq", "Ne") and is_param(at.cond()[2], "target_sqrt_price") and
-                      mentions(at.cond()[1], lambda s: s[0] == "call" and s[1].endswith("try_get_next_sqrt_price"))]
+                      mentions(at.cond()[1], lambda s: s[0] == "call" and "try_get_next_sqrt_price" in s[1].rsplit("::", 1)[-1])]
                 res = {}
                 for is_max in (True, False):
                     pva = prov_assuming(fn, [(at, (at.cond()[0] == "Eq") == is_max) for at in mx], ctx)
@@ -337,14 +337,27 @@ def R2_step(run):
                           "SDK exact-in step fee: reaching the target gives %s, stopping short gives %s; expected reverse_fee(in) - in when the target is reached and remaining - in otherwise" %
                           (sorted(res.get(True, [])), sorted(res.get(False, []))), loc=fn.loc(), detail="target reached => ceil fee on in; partial => remaining - in")
             nx = [strip(x) for x in leaves(f["next_sqrt_price"])]
-            ok = any(is_param(x, "target_sqrt_price") for x in nx) and any(is_call(x, "try_get_next_sqrt_price") for x in nx) and len(nx) == 2
+            # read with the try_get_next_sqrt_price wrapper spliced in: the computed alternative is the from_a / from_b primitive of this
+            # context (which of the two: "next-price" above) on (current price, liquidity, budget, specified_input), through
+            # width conversions only
+            prim = "try_get_next_sqrt_price_from_a" if si == ab else "try_get_next_sqrt_price_from_b"
+
+            def unconv(t):
+                t = strip(t)
+                while t[0] == "call" and t[1].rsplit("::", 1)[-1] in ("into", "from") and len(t[2]) == 1:
+                    t = strip(t[2][0])
+                return t
+            comp = [x for x in nx if not is_param(x, "target_sqrt_price")]
+            ok = any(is_param(x, "target_sqrt_price") for x in nx) and len(comp) == 1 and len(nx) == 2
             if ok:
-                c = [x for x in nx if is_call(x, "try_get_next_sqrt_price")][0]
-                c = c[1] if c[0] == "q" else c
-                budget = strip(c[2][2])
-                ok = (is_call(budget, "try_apply_swap_fee") and is_param(strip(budget[1] if budget[0] == "q" else budget)[2][0], "amount_remaining")) if si else is_param(budget, "amount_remaining")
-                ok = ok and is_param(c[2][0], "current_sqrt_price") and is_param(c[2][1], "current_liquidity") and is_param(c[2][3], "a_to_b") and is_param(c[2][4], "specified_input")
-            run.check("R2", "next-price-inputs" + tagc, ok, "SDK step next price is not target or next_price(current, liquidity, %s, a_to_b, specified_input)" % ("apply_fee(remaining)" if si else "remaining"),
+                cc = [y for y in subterms(comp[0]) if y[0] == "call" and y[1].rsplit("::", 1)[-1].startswith("try_get_next_sqrt_price")]
+                ok = len(cc) == 1 and cc[0][1].rsplit("::", 1)[-1] == prim and len(cc[0][2]) == 4
+            if ok:
+                c = cc[0]
+                budget = unconv(c[2][2])
+                ok = (is_call(budget, "try_apply_swap_fee") and is_param(unconv(budget[2][0]), "amount_remaining")) if si else is_param(budget, "amount_remaining")
+                ok = ok and is_param(unconv(c[2][0]), "current_sqrt_price") and is_param(unconv(c[2][1]), "current_liquidity") and is_param(unconv(c[2][3]), "specified_input")
+            run.check("R2", "next-price-inputs" + tagc, ok, "SDK step next price is not target or %s(current, liquidity, %s, specified_input)" % (prim, "apply_fee(remaining)" if si else "remaining"),
                       loc=fn.loc(), detail="budget = %s" % ("apply_fee(remaining, rate)" if si else "remaining"))
         else:
             run.bad("R2", "amounts" + tagc, "SDK compute_swap_step does not return exactly one SwapStepQuote shape in this context (%d)" % len(q), loc=fn.loc())
